@@ -201,6 +201,7 @@ type Result struct {
 	Merges       int
 	Restarts     int
 	FreshQueries int
+	RaceRegions  int
 	Forks        int
 	Samples      []string
 	Bounds       map[string]int64
@@ -227,6 +228,7 @@ type Engine struct {
 	KnownOpen map[string]bool
 	Redirect  map[string]string
 	Havoc     map[string]bool // functions replaced by fresh unconstrained results (choice functions whose every outcome must be tolerated)
+	RaceCheck bool // record per-goroutine footprints in fork/join regions and require them to be disjoint
 	FloatTaint bool // symbolic ints reaching float conversions are candidates, not engine errors
 	ForkAll   map[string]bool // functions in which every symbolic branch forks
 	ForkIn    map[string]bool // functions in which a symbolic branch whose region contains a loop or return forks instead of merging
